@@ -311,22 +311,19 @@ def r13_6(ctx: Ctx) -> RuleResult:
 
 def r13_7(ctx: Ctx) -> RuleResult:
     rr = RuleResult("R13.7", "the filter context reaches nested filters at any depth", floor=6)
+    from .c02 import subquery_starts
+
     n = 0
     for cls in path_classes(ctx):
-        for fn in cls.methods.values():
-            if not fn.name.startswith(("evaluate", "_")):
+        for name in ("evaluate", "evaluate_async"):
+            fn = cls.methods.get(name)
+            if fn is None:
                 continue
-            ctxp = None
-            for a in fn.node.args.args[1:]:
-                ctxp = a.arg
-                break
-            for c in calls(fn.node):
-                if callee_name(c) not in ("finditer", "finditer_async"):
-                    continue
+            for st in subquery_starts(ctx, cls, fn):
                 n += 1
-                fc = kw(c, "filter_context")
-                if fc is not None and path_of(fc) == f"{ctxp}.extra_context":
-                    rr.ok(fn.loc(c), f"{fn.qualname}: {short(c, 70)}")
+                c = st["call"]
+                if st["fc"] == f"{st['ctx']}.extra_context":
+                    rr.ok(fn.loc(c), f"{fn.qualname}: {short(c, 70)} hands on context.extra_context")
                 else:
                     rr.bad(fn, c, "a sub-query evaluated inside a filter drops the caller's filter context: a filter "
                            "nested in it (`$[?@.a[?@ == _.v]]`) sees an empty context",
